@@ -16,11 +16,11 @@
 //         every string reachable from the Manifest is read (dangling references become ASan reports).
 //
 // The "file system" is finite and small, so that one execution stays cheap: readFile() fails (returns
-// null, as for a file that cannot be opened) for unknown names, when kMaxDepth (16) files are already
-// open, and after kMaxLoads (64) loads in one run. That bounds the work include fan-out can legitimately
+// null, as for a file that cannot be opened) for unknown names, when kMaxDepth (8) files are already
+// open, and after kMaxLoads (32) loads in one run. That bounds the work include fan-out can legitimately
 // cause (two self-includes per file would otherwise mean 2^depth parses).
 //
-// Pass C  Only when pass B was refused a file for depth: the same table is loaded again by a file system
+// Pass C  Only when pass B was refused a file for depth (and then for one input in sixteen): the same table is loaded again by a file system
 //         that serves exactly ONE descending chain (a load succeeds only while no file has been closed
 //         yet), without a depth limit of its own up to maxChain() loads (default 100000, environment
 //         FZ_MAX_CHAIN). Work is linear in the depth the LOADER allows; a loader that recurses without
@@ -44,8 +44,8 @@ using namespace llbuild::ninja;
 namespace {
 
 const size_t kMaxFiles = 16;
-const size_t kMaxDepth = 16;
-const size_t kMaxLoads = 64;
+const size_t kMaxDepth = 8;
+const size_t kMaxLoads = 32;
 size_t maxChain() {
   static size_t v = 0;
   if (!v) {
@@ -245,7 +245,11 @@ extern "C" int LLVMFuzzerTestOneInput(const uint8_t* data, size_t size) {
     depthRefused = actions.refusedDepth != 0;
   }
 
-  if (depthRefused) {  // pass C
+  // Pass C costs as many parses as the loader allows nesting levels, so it runs for one in sixteen of the
+  // inputs that qualify (chosen by a hash of the input, i.e. deterministically).
+  uint32_t h = 2166136261u;
+  for (size_t i = 0; i < size; ++i) h = (h ^ data[i]) * 16777619u;
+  if (depthRefused && ((h >> 7) & 15) == 0) {  // pass C
     g_open = 0;
     LoaderActions actions(files, /*chainMode=*/true);
     std::unique_ptr<Manifest> manifest;
